@@ -12,6 +12,8 @@ THEOREMS = [
     "C07_level_regions", "C07_level_regions_two_pass",
     "C07_file_zoom_query", "C07_file_zoom_query_two_pass", "C07_minmax_read_exact", "C07_file_zoom_query_complete",
     "C07_gap_refuted_before_fix", "C07_minmax_refuted_before_fix",
+    # the IEEE run has the exact statistics on a checkable domain (Proofs/FloatExact.v, FloatExactZoom.v)
+    "C07_stats_ieee_on_grid", "C07_ieee_exact_records", "C07_stats_ieee_in_domain", "C07_stat_read_on_grid",
 ]
 
 class C07(Prop):
